@@ -20,8 +20,8 @@ def check_module(events, cfg=None, case="lower", trailing=False, only=None):
     """returns (messages, expected_digest, nontrivial).  only: optional tuple of message classes to keep."""
     text, r = run_module(events, cfg, case, trailing)
     exp = refmodel.expected(events, cfg)
-    dg = common.digest([(e["kind"], e["sig"], e.get("inner"), [refmodel.member_sig(m) for m in e.get("methods", [])])
-                        for e in exp])
+    dg = common.digest([(e["kind"], e["sig"], e.get("inner"), [refmodel.member_sig(m) for m in e.get("methods", [])],
+                         e.get("type"), e.get("value"), e.get("default"), e.get("help")) for e in exp])
     if r["page"] is None:
         return [f"error: pipeline failed on a well-formed module: {r['error']}"], dg, bool(exp)
     page = rstobs.Page(r["page"])
